@@ -50,6 +50,52 @@ DATE_LAYOUT = {
     'za.idnr': (_sl(0, 2), None, _sl(2, 4), _sl(4, 6), ident, ident, None),
 }
 
+def _dk_century(v):
+    yy, c = int(v[4:6]), v[6]
+    if c in '0123':
+        return 1900
+    if c in '49':
+        return 2000 if yy <= 36 else 1900
+    return 2000 if yy <= 57 else 1800
+
+
+def _no_century(v):
+    yy, ind = int(v[4:6]), int(v[6:9])
+    if ind < 500:
+        return 1900
+    if ind < 750 and yy >= 54:
+        return 1800
+    if yy < 40:
+        return 2000
+    if ind >= 900:
+        return 1900
+    return None
+
+
+def _cz_century(v):
+    yy = int(v[0:2])
+    if len(v) == 9:
+        return 1800 if yy >= 80 else 1900
+    return 2000 if yy < 54 else 1900
+
+
+_GENDER_CENTURY = {'1': 1800, '2': 1800, '3': 1900, '4': 1900, '5': 2000, '6': 2000, '7': 2100, '8': 2100}
+# how each format encodes the century of birth (from the national specifications the module docstrings cite), frozen
+CENTURY = {
+    'pl.pesel': lambda v: {0: 1900, 1: 2000, 2: 2100, 3: 2200, 4: 1800}.get(int(v[2:4]) // 20),
+    'bg.egn': lambda v: 2000 if int(v[2:4]) > 40 else 1800 if int(v[2:4]) > 20 else 1900,
+    'ee.ik': lambda v: _GENDER_CENTURY.get(v[0]),
+    'lt.asmens': lambda v: _GENDER_CENTURY.get(v[0]),
+    'ro.cnp': lambda v: {'1': 1900, '2': 1900, '3': 1800, '4': 1800, '5': 2000, '6': 2000}.get(v[0]),
+    'lv.pvn': lambda v: 1800 + int(v[6]) * 100,
+    'kr.rrn': lambda v: 1900 if v[6] in '1256' else 2000 if v[6] in '3478' else 1800,
+    'mx.curp': lambda v: 1900 if v[16].isdigit() else 2000,
+    'dk.cpr': _dk_century,
+    'no.fodselsnummer': _no_century,
+    'cz.rc': _cz_century,
+    'sk.rc': _cz_century,
+}
+
 # (module, getter, kind, kwargs strategy name)
 GETTERS = []
 for _m in ['be.bis', 'be.nn', 'be.ssn']:
@@ -154,6 +200,12 @@ def date_agreement(name, v, d):
             ok = d.year == int(digits[0:4]) and d.month == int(digits[4:6]) and d.day == int(digits[6:8])
         else:
             ok = d.year % 100 == int(digits[0:2]) and d.month == int(digits[2:4]) and d.day == int(digits[4:6])
+            if ok:
+                # documented rule: '-' = the person is under 100 on the system date, '+' = 100 or older
+                ty = core.get_today().year
+                cen = ty // 100 - (1 if int(digits[0:2]) > ty % 100 else 0) - (1 if '+' in v else 0)
+                if d.year != cen * 100 + int(digits[0:2]):
+                    return 'century-disagrees-with-separator-and-system-date'
         return None if ok else 'date-disagrees-with-digits'
     if name == 'it.codicefiscale':
         if len(v) != 16:
@@ -178,6 +230,13 @@ def date_agreement(name, v, d):
             return 'date-disagrees-with-digits'
         if d.month != fm(int(v[mm])) or d.day != fd(int(v[dd])):
             return 'date-disagrees-with-digits'
+        if name == 'si.emso' and d.year != (2000 if int(v[4:7]) < 800 else 1000) + int(v[4:7]):
+            return 'century-disagrees-with-digits'
+        cen = CENTURY.get(name)
+        if cen is not None:
+            want = cen(v)
+            if want is not None and d.year - d.year % 100 != want:
+                return 'century-disagrees-with-digits'
     except ValueError:
         return 'layout-table-does-not-fit'
     return None
@@ -250,8 +309,10 @@ def shard(a):
                                    'kw': st.sampled_from(OPTS.get((name, fn), [{}])), 'clock': gen.clock_strategy(name)})
     core.drive(prop, strat, a['n'], (a['seed'], 'C12', name, fn), res, shrink_skip=a['known'])
     # characters of either class at every position, every character at the edges, digits on range-table boundaries
-    for v in gen.edge_pool(name) + gen.boundary_pool(name):
-        prop({'mod': name, 'fn': fn, 'kind': kind, 'x': v, 'kw': {}, 'clock': None}, res)
+    clocks = [None] + (['1990-01-01', '2000-02-29', '2031-01-01', '2100-12-31'] if name in gen.CLOCK_MODULES else [])
+    for v in gen.edge_pool(name) + gen.boundary_pool(name) + (gen.pair_pool(name) if lay is not None or kind.startswith('date') else []):
+        for clk in clocks:
+            prop({'mod': name, 'fn': fn, 'kind': kind, 'x': v, 'kw': {}, 'clock': clk}, res)
     res.notes['calls_per_getter'] = {'%s.%s' % (name, fn): res.hist['getter-calls']}
     return res
 
